@@ -638,7 +638,11 @@ func c02Exec(c *engine.Ctx, cs c02Case, onState func(key string)) {
 		return
 	}
 	if fail != "" {
-		c.Violate(fmt.Sprintf("%s/%s/%s/%s", cs.Kind, cs.Layout, names[failStep], classify(fail)), fmt.Sprintf("%s after history %v", fail, names), "c02", cs)
+		step := "init" // the start state itself (built by Push / SetCoords) violates an invariant
+		if failStep >= 0 {
+			step = names[failStep]
+		}
+		c.Violate(fmt.Sprintf("%s/%s/%s/%s", cs.Kind, cs.Layout, step, classify(fail)), fmt.Sprintf("%s after history %v", fail, names), "c02", cs)
 		return
 	}
 	if onState != nil {
